@@ -172,6 +172,18 @@ CHECKS['C17'] = dict(
    note='Trusted: TLC, CommunityModules, g++. Histories are sampled. One known finding (MMIO backing storage survives Reset) is listed '
         'in known_findings.json; four further defects were repaired by fix: commits.',
    technique='TLA+ spec (FreshReset state machine + component reset model) + TLC trace validation of complete observations')
+CHECKS['C18'] = dict(
+   text='TLC checks the address-formation cases on the specification (data, MMIO and loop-frame indices always in range; the program-side '
+        'addresses that leave the array do so only under named causes). Every first word is executed from states that include the ends '
+        'of the program space and non-zero program pages with every raw access observed (out-of-range ones vetoed), and TLC validates '
+        'each execution in full: the specification predicts exactly which executions go out of range. Fuzz runs of a full Teakra under '
+        'ASan+UBSan must end by Return/Unimplemented/AssertAbort (TLC); Faults have no action.',
+   design_ref='5.18',
+   category='model_checking',
+   note='The undefined-behaviour clause (uninitialised/freed memory, signed overflow, shift range) is NOT decided by the specification: it '
+        'is observed by ASan+UBSan and _GLIBCXX_ASSERTIONS on the executions run (runtime monitor). Four out-of-range causes are known '
+        'findings (known_findings.json); two further defects were repaired.',
+   technique='TLA+ spec + TLC theorems on address formation + TLC trace validation of wild executions + sanitizer-monitored fuzz runs')
 NOT_YET = {}
 def main():
     props = [json.loads(l)['id'] for l in open(os.path.join(V, 'properties.jsonl'))]
@@ -197,7 +209,7 @@ def main():
     hooks_commits = os.popen("git -C /repo log --format=%h --grep='^verif hooks'").read().split()
     m = {
         'version': 1,
-        'setup_cmd': 'make -s -j16 -C /verif/harness FLAVOUR=plain all',
+        'setup_cmd': 'make -s -j16 -C /verif/harness FLAVOUR=plain all && /verif/tools/vbuild makedsp1 && /verif/tools/vbuild fuzz_rec asan && /verif/tools/vbuild conc_rec tsan',
         'hooks': {
             'guard': 'TEAKRA_VERIF',
             'enable': 'the harness Makefile compiles /repo/src/*.cpp from the working tree with -DTEAKRA_VERIF (see harness/Makefile)',
